@@ -49,8 +49,16 @@ static void dq_concurrent()
 {
     int init = pmc_choose(3, 0);
     int ops[T][OPS];
+    // threads are symmetric: enumerate op words as a non-decreasing sequence of word numbers
+    int nwords = 1;
+    for (int o = 0; o < OPS; ++o) nwords *= ALPHA;
+    int prev = 0;
     for (int t = 0; t < T; ++t)
-        for (int o = 0; o < OPS; ++o) ops[t][o] = pmc_choose(ALPHA, 0);
+    {
+        int w = prev + pmc_choose(nwords - prev, 0);
+        prev = w;
+        for (int o = 0; o < OPS; ++o) { ops[t][o] = w % ALPHA; w /= ALPHA; }
+    }
     dq_t q(8);
     Ledger L;
     int next = 1;
@@ -212,12 +220,13 @@ int main(int argc, char** argv)
         {"be_lifo_seq", backend_sequential<pt::lockfree_lifo_backend<int>, 1>, 0, 0, 0.02, 0.01, 0, "sequential", nullptr, nullptr},
         {"be_abp_fifo_seq", backend_sequential<pt::lockfree_abp_fifo_backend<int>, 2>, 0, 0, 0.02, 0.01, 0, "sequential", nullptr, nullptr},
         {"be_abp_lifo_seq", backend_sequential<pt::lockfree_abp_lifo_backend<int>, 3>, 0, 0, 0.02, 0.01, 0, "sequential", nullptr, nullptr},
-        {"dq_2x2", dq_concurrent<2, 2, 4>, 2, 3, 0.3, 0.2, 1, "F-site: all atomics in deque.hpp / freelist (anchor 128-bit CAS, node links, freelist head)", dsites, nullptr},
-        {"dq_3x1", dq_concurrent<3, 1, 4>, 2, 3, 0.2, 0.2, 1, "F-site: deque.hpp / freelist", dsites, nullptr},
-        {"dq_3x2_poppush", dq_concurrent<3, 2, 4>, 1, 2, 0.2, 0.3, 1, "F-site: deque.hpp / freelist", dsites, nullptr},
-        {"be_fifo_2p1c", backend_concurrent<pt::lockfree_fifo_backend<int>, 2, 1>, 2, 3, 0.06, 0.1, 1, "F-site: all atomics in concurrentqueue.hpp", cqsites, "src"},
-        {"be_fifo_1p2c", backend_concurrent<pt::lockfree_fifo_backend<int>, 1, 2>, 2, 3, 0.06, 0.1, 1, "F-site: concurrentqueue.hpp", cqsites, "src"},
-        {"be_abp_lifo_1p2c", backend_concurrent<pt::lockfree_abp_lifo_backend<int>, 1, 2>, 2, 3, 0.06, 0.05, 1, "F-site: deque.hpp / freelist", dsites, nullptr},
+        {"dq_2x1", dq_concurrent<2, 1, 4>, 3, 6, 0.1, 0.1, 1, "F-site: all atomics in deque.hpp / freelist (anchor 128-bit CAS, node links, freelist head)", dsites, nullptr},
+        {"dq_2x2", dq_concurrent<2, 2, 4>, 1, 2, 0.3, 0.3, 1, "F-site: deque.hpp / freelist", dsites, nullptr},
+        {"dq_3x1", dq_concurrent<3, 1, 4>, 1, 3, 0.2, 0.2, 1, "F-site: deque.hpp / freelist", dsites, nullptr},
+        {"dq_3x2", dq_concurrent<3, 2, 4>, 0, 1, 0.05, 0.2, 1, "F-site: deque.hpp / freelist", dsites, nullptr},
+        {"be_fifo_2p1c", backend_concurrent<pt::lockfree_fifo_backend<int>, 2, 1>, 1, 2, 0.06, 0.1, 1, "F-site: all atomics in concurrentqueue.hpp", cqsites, nullptr},
+        {"be_fifo_1p2c", backend_concurrent<pt::lockfree_fifo_backend<int>, 1, 2>, 1, 2, 0.06, 0.1, 1, "F-site: concurrentqueue.hpp", cqsites, nullptr},
+        {"be_abp_lifo_1p2c", backend_concurrent<pt::lockfree_abp_lifo_backend<int>, 1, 2>, 1, 2, 0.06, 0.05, 1, "F-site: deque.hpp / freelist", dsites, nullptr},
     };
     static const char* assumptions[] = {"sequentially consistent interleavings only", "compare_exchange_weak never fails spuriously",
         "choice points only at the atomics of the container's own source files (F-site)"};
